@@ -44,6 +44,13 @@ def piece_case(L, p, moved_expr):
 
 
 def run(ctx):
+    if ctx.pid != "C03":
+        # included by another property's check: once per run is enough
+        key = ("c03", getattr(ctx, "rule_suffix", ""))
+        done = ctx.__dict__.setdefault("_groups_done", set())
+        if key in done:
+            return
+        done.add(key)
     ctx.explanation = __doc__
     f = ctx.facts("A")
     L = lift.Lifter(f)
